@@ -849,7 +849,7 @@ def nontrivial(case, obs):
     return any(len(set(w)) < len(w) or (set(w) & set(r)) for r, w in case["items"])
 
 
-PARTIAL_OUTPUT_IOPORTS = False    # set True to also draw IOPorts that are only driven and partly unused (see known_finding)
+PARTIAL_OUTPUT_IOPORTS = True     # set True to also draw IOPorts that are only driven and partly unused (see known_finding)
 
 
 def _partial_output_ioport(D):
